@@ -740,7 +740,17 @@ func (g *gen) includeStmt() []Node {
 		}
 		g.p.Vars[lv] = List(FlSliceStr, vals...)
 		kv := g.tok("v")
-		rg := &Range{Form: 2, K: g.tok("v"), V: kv, Subj: Var{lv}, Body: []Node{&Text{S: "<incl:"}, &Include{Name: Var{kv}}, &Text{S: ">"}}}
+		var nameE Expr = Var{kv}
+		if g.r.Intn(2) == 0 {
+			// a name computed by concatenation with a part that changes per iteration
+			for i := range vals {
+				vals[i] = Str(vals[i].S[1:])
+			}
+			g.p.Vars[lv] = List(FlSliceStr, vals...)
+			nameE = Concat{Lit{Str("/")}, Var{kv}}
+			g.feat["include-loop-concat"] = true
+		}
+		rg := &Range{Form: 2, K: g.tok("v"), V: kv, Subj: Var{lv}, Body: []Node{&Text{S: "<incl:"}, &Include{Name: nameE}, &Text{S: ">"}}}
 		return append(pre, rg)
 	}
 	target := g.pick(g.incFiles)
